@@ -17,6 +17,9 @@ API = [("api-counter", {"quick": ["-n", "60"], "thorough": ["-n", "3000"], "sear
 CONC = [("conc-counter", {"quick": ["-n", "60"], "thorough": ["-n", "3000"], "search": ["-n", "600"]}),
         ("conc-map", {"quick": ["-n", "60"], "thorough": ["-n", "3000"], "search": ["-n", "600"]}),
         ("conc-list", {"quick": ["-n", "60"], "thorough": ["-n", "3000"], "search": ["-n", "600"]})]
+CONCSRV = [("concsrv-counter", {"quick": ["-n", "12"], "thorough": ["-n", "600"], "search": ["-n", "100"]}),
+           ("concsrv-map", {"quick": ["-n", "12"], "thorough": ["-n", "600"], "search": ["-n", "100"]}),
+           ("concsrv-list", {"quick": ["-n", "12"], "thorough": ["-n", "600"], "search": ["-n", "100"]})]
 PROPS = {
     "C14": {"slices": [("codec", {"quick": ["-n", "1500"], "thorough": ["-n", "60000"], "search": ["-n", "8000"]})],
             "trusted": ["encoding/json, google.golang.org/protobuf and mongo-driver/bson byte formats: exercised (every case goes through all three), not modelled",
@@ -33,6 +36,10 @@ PROPS = {
     "C11": {"slices": WIRE + WIRED, "trusted": SRV_TRUST, "assumptions": ["snapshot updates of one datatype run one at a time (their TryLock; a racing update is skipped)", "Document snapshots are compared by the replay oracle only, not modelled"]},
     "C20": {"slices": CONC, "trusted": ["the Go scheduler: the schedules explored by the stress slices are those the runtime happens to produce under randomized yields (2..8 goroutines, 16 cores); the theorem quantifies over all schedules of the model, the slices sample schedules of the code"],
             "assumptions": ["Model/Conc.v is a hand transcription of BeginTransaction/EndTransaction/unlock (statement-level atomic steps, sequentially consistent memory)", "data-race freedom in the sense of the Go memory model is not claimed (Rollback rewrites metadata a concurrent pack builder reads)", "Document is not driven by the concurrent slices"]},
+    "C12": {"slices": CONCSRV, "race": [("concsrv-counter", {"quick": ["-n", "8"], "thorough": ["-n", "200"]}), ("concsrv-list", {"quick": ["-n", "8"], "thorough": ["-n", "200"]})],
+            "race_scope": "orda/server/",
+            "trusted": SRV_TRUST + ["the Go scheduler and race detector: schedules of the real server are sampled (2..16 simultaneous calls on 16 cores), the theorem quantifies over all schedules of the model", "LocalLock (a CAS mutex with a lease timeout) is used, not the Redis lock"],
+            "assumptions": ["Model/SrvLock.v is a hand transcription of the handler's TryLock / critical section / Unlock; one storage command is one atomic step", "storage commands on documents of different datatypes commute (hypothesis of the serializability theorem; validated by replaying real concurrent rounds on the sequential model)", "PatchDocument is not driven (Document is not modelled)"]},
     "C13": {"slices": WIRE, "trusted": SRV_TRUST, "assumptions": ["handlers of one datatype run one at a time"]},
     "C16": {"slices": WIRE, "trusted": SRV_TRUST, "assumptions": ["liveness of the Go code (no hang, no crash) is tested, not proved"]},
     "C17": {"slices": WIRE, "trusted": SRV_TRUST, "assumptions": ["ResetCollection is not modelled yet"]},
